@@ -31,7 +31,7 @@ def plan(tier, seed):
             shape = [int(rng.integers(1, 7)) for _ in range(nd)]
             if (nd >= 2 and rng.uniform() < 0.3) or (fun in ('quantile', 'lorenz') and rng.uniform() < 0.8):
                 shape[-1] = int(rng.integers(8, 41))
-            cases.append(dict(fun=fun, shape=shape, content=pick(['random', 'random', 'ties', 'silent', 'zeros', 'huge']), keepdims=bool(rng.integers(0, 2)),
+            cases.append(dict(fun=fun, shape=shape, content=pick(['random', 'random', 'ties', 'silent', 'zeros', 'huge', 'tiny', 'tiny']), keepdims=bool(rng.integers(0, 2)),
                               use_sensor=bool(rng.integers(0, 2)), rs=[seed, 18, i]))
             i += 1
     return cases
@@ -49,6 +49,8 @@ def make(rng, shape, content):
         x = np.zeros(shape, dtype=complex)
     elif content == 'huge':
         x = x * 10 ** rng.uniform(-100, 100)
+    elif content == 'tiny':
+        x = x * 10 ** rng.uniform(-9, -5)              # low-level time-frequency points (eps guards become visible)
     return x
 
 
@@ -195,8 +197,10 @@ def run_sourcemask(case, R):
         mix = np.broadcast_to(np.abs(X.sum(axis=src, keepdims=True)), X.shape)
         ok = mix > 1e-6 * (np.abs(X).max() + 1e-300)
         if ok.any() and case['content'] != 'huge':
-            dvp = float(np.abs(got - icm.real)[ok].max())
-            R.check(mon, dvp <= 1e-9, 'psm/real-part-of-icm', f'PSM deviates from Re(ICM) by {dvp:.2e}', **info)
+            # "up to the eps guard": |s|/(|y| + eps) cos(theta) = Re(ICM) |y| / (|y| + eps) with eps = 1e-18
+            target = icm.real * mix / (mix + 1e-18)
+            dvp = float((np.abs(got - target) / (1 + np.abs(target)))[ok].max())
+            R.check(mon, dvp <= 1e-12, 'psm/real-part-of-icm', f'PSM deviates from Re(ICM) |y|/(|y|+eps) by {dvp:.2e}', **info)
     if case['content'] == 'zeros' and fun in ('wiener', 'ratio', 'amplitude', 'psm', 'ibm'):
         R.check('C18.zeros', bool(np.isfinite(got).all()), f'{fun}/zeros-nonfinite', 'all-zero input gives a non-finite mask', **info)
     if src != 0 or sen is not None or case['content'] in ('ties', 'silent', 'zeros'):
@@ -222,11 +226,19 @@ def run_quantile(case, R):
     rng = gen.rng_of(case)
     shape = list(case['shape'])
     nd = len(shape)
-    X = make(rng, shape, case['content'] if case['content'] != 'huge' else 'random')
+    X = make(rng, shape, case['content'] if case['content'] not in ('huge', 'tiny') else 'random')
+    if case['rs'][-1] % 3 == 0:
+        shape[-1] = int(rng.choice([5, 9, 13, 17, 21]))      # n - 1 divisible by 4: for dyadic q a point equals the threshold exactly (all arithmetic exact)
+        X = make(rng, shape, case['content'] if case['content'] not in ('huge', 'tiny') else 'random')
     k = int(rng.integers(1, nd + 1))
     axes = sorted(rng.choice(nd, size=k, replace=False).tolist())
+    if case['rs'][-1] % 3 == 0:
+        axes = [nd - 1]; k = 1
     npts = int(np.prod([shape[a] for a in axes]))
     q = float(rng.choice([0.1, 0.25, 0.5, 0.9, -0.1, -0.5, -0.9, 0.0, 1.0, -1.0])) if rng.uniform() < 0.7 else float(rng.uniform(-1, 1))
+    if case['rs'][-1] % 3 == 0:
+        q = float(rng.choice([0.5, -0.5, 0.25, -0.25, 0.75, -0.75]))
+    dyadic = (abs(q) * 8) == int(abs(q) * 8)
     w = float(rng.choice([0.999, 1.0, 0.5]))
     axis_arg = axes[0] if (k == 1 and rng.uniform() < 0.5) else (tuple(axes) if rng.uniform() < 0.5 else [a - nd for a in axes])
     info = dict(fun='quantile', shape=shape, axis=axis_arg if not isinstance(axis_arg, tuple) else list(axis_arg), q=q, weight=w, content=case['content'], all_axes=(k == nd))
@@ -250,7 +262,9 @@ def run_quantile(case, R):
         vals = A[tuple(sl)].ravel()
         thr = own_quantile(vals, (1 - q) if q >= 0 else abs(q))
         hi = (vals > thr) if q >= 0 else (vals < thr)
-        if np.any(np.abs(vals - thr) <= 1e-12 * (abs(thr) + 1e-300)) and not np.any(vals == thr):
+        if np.any(np.abs(vals - thr) <= 1e-12 * (abs(thr) + 1e-300)) and not (dyadic and np.any(vals == thr)):
+            # the interpolated threshold coincides with a point only up to rounding (q (n-1) within rounding of an integer for a
+            # q that is not a dyadic rational): which side that point falls on is decided by the last bit of q * 100 / 100
             near = True
         ref[tuple(sl)] = np.where(hi, 0.5 + w / 2, 0.5 - w / 2).reshape(A[tuple(sl)].shape)
     if near:
@@ -270,7 +284,7 @@ def run_lorenz(case, R):
     rng = gen.rng_of(case)
     shape = list(case['shape'])
     nd = len(shape)
-    X = make(rng, shape, case['content'] if case['content'] not in ('huge', 'zeros') else 'random')
+    X = make(rng, shape, case['content'] if case['content'] not in ('huge', 'zeros', 'tiny') else 'random')
     k = int(rng.integers(1, min(nd, 2) + 1))
     axes = sorted(rng.choice(nd, size=k, replace=False).tolist())
     sen = None
